@@ -781,6 +781,9 @@ def oracle(ctx):
     # step D runs inside _run on the same cases; in search mode it runs again on fresh ones
     if ctx.search_mode:
         _run(ctx, "search", ctx.n(1500, 16000), 0, False)
+    else:
+        from props import c07_stale
+        c07_stale.run(ctx)
 
 
 def replay(ctx, case):
